@@ -8,7 +8,7 @@ import tempfile
 
 import numpy as np
 import dataiter as di
-from dataiter import DataFrame, GeoJSON, ListOfDicts, Vector
+from dataiter import DataFrame, DataFrameColumn, GeoJSON, ListOfDicts, Vector
 from .driver import driver
 
 
@@ -114,27 +114,27 @@ def _orderings(names, maxlen=3):
 
 def _w_csv3(d):
     p = os.path.join(d, "r.csv")
-    DataFrame(a=[1, 2, 3], b=["x", "", "z"], c=[0.5, float("nan"), 2.0]).write_csv(p)
+    DataFrame(a=[1, 2, 3], b=["x", "", "z"], c=[0.5, float("nan"), 2.0], d=["p", "", ""]).write_csv(p)
     return p
 
 
 def _w_parquet3(d):
     p = os.path.join(d, "r.parquet")
-    DataFrame(a=[1, 2, 3], b=["x", "", "z"], c=[0.5, float("nan"), 2.0]).write_parquet(p)
+    DataFrame(a=[1, 2, 3], b=["x", "", "z"], c=[0.5, float("nan"), 2.0], d=["p", "", ""]).write_parquet(p)
     return p
 
 
 def _w_json3(d):
     p = os.path.join(d, "r.json")
     with open(p, "w") as f:
-        json.dump([{"a": 1, "b": "x", "z": 9}, {"b": "", "a": 2}, {"c": 2.0, "a": 3, "b": "z"}], f)      # c first occurs in the last item
+        json.dump([{"a": 1, "b": "x", "z": 9, "d": "p"}, {"b": "", "a": 2, "d": None}, {"c": 2.0, "a": 3, "b": "z"}], f)      # c first occurs in the last item
     return p
 
 
 def _w_csv_header_only(d):
     p = os.path.join(d, "h.csv")
     with open(p, "w") as f:
-        f.write("a,b,c\n")
+        f.write("a,b,c,d\n")
     return p
 
 
@@ -142,8 +142,8 @@ def restriction_driver(name, cls, meth, write, colkw, tykw, tymaps, from_string=
     """reader(path, <restriction>, <types>) == select(reader(path, <types>), restriction), compared name by name"""
     @driver(name)
     def _d(run):
-        run.bound = ("one 3-row file with columns a (int), b (str incl. ''), c (float incl. missing); every ordering of every non-empty "
-                     f"subset of the columns x {len(tymaps)} type maps (incl. maps naming unselected columns)"
+        run.bound = ("one 3-row file with columns a (int), b (str incl. ''), c (float incl. missing), d (str incl. null / absent); every ordering of every "
+                     f"subset of 1-3 columns x {len(tymaps)} type maps (incl. maps naming unselected columns)"
                      + ("; plus a header-only file" if extra_files else ""))
         d = tempfile.mkdtemp(prefix="vfrd")
         try:
@@ -155,14 +155,16 @@ def restriction_driver(name, cls, meth, write, colkw, tykw, tymaps, from_string=
                     with open(path) as f:
                         return fn(f.read(), **kw)
                 return fn(path, **kw)
-            gen = ((pi, cols, tm) for pi in range(len(paths)) for cols in _orderings(["a", "b", "c"]) for tm in tymaps)
+            gen = ((pi, cols, tm) for pi in range(len(paths)) for cols in _orderings(["a", "b", "c", "d"], 3) for tm in tymaps)
             for pi, cols, tm in run.inputs(gen):
                 inp = [pi, cols, tm]
                 ty = {k: _TY[v] for k, v in tm.items()}
+                ty0 = dict(ty)
                 try:
-                    full = read(paths[pi], **({tykw: {k: v for k, v in ty.items()}} if ty else {}))
+                    full = read(paths[pi], **({tykw: ty} if ty else {}))      # the SAME map object is used for both reads
                 except Exception as e:
                     continue        # the unrestricted read with this type map fails: nothing to compare with
+                run.check(inp, ty == ty0, expected=ty0, got=ty, clause="the caller's type map is not modified by a read")
                 try:
                     got = read(paths[pi], **{colkw: list(cols)}, **({tykw: ty} if ty else {}))
                 except Exception as e:
@@ -173,6 +175,24 @@ def restriction_driver(name, cls, meth, write, colkw, tykw, tymaps, from_string=
                     exp = {c: v for c, v in _frame_cols(full).items() if c in cols or c == "geometry"}
                     obs = _frame_cols(got)
                     ok = exp == obs
+                    # "... and casting them": a column read with a type map is the plainly read column converted with the constructor
+                    if ty and ok:
+                        try:
+                            plain_ = read(paths[pi])
+                            for c, t in ty.items():
+                                if c in got.colnames:
+                                    want = DataFrameColumn(plain_[c].tolist(), t)
+                                    na0 = [bool(m) for m in plain_[c].is_na()]
+                                    # positions that are missing in the plain read ('' / null) may come back as '' or None in an object
+                                    # column: compared only for being "empty"; everything else: same dtype, same values, same missing positions
+                                    emptyish = lambda x: x is None or x == "" or (isinstance(x, float) and x != x)
+                                    gl, wl = got[c].tolist(), want.tolist()
+                                    same_t = str(want.dtype) == str(got[c].dtype) and len(gl) == len(wl) and all(
+                                        (emptyish(list(got[c])[i]) if m else (gl[i] == wl[i] and not bool(got[c].is_na()[i]))) for i, m in enumerate(na0))
+                                    run.check(inp, same_t, expected=[str(want.dtype), want.tolist()], got=[str(got[c].dtype), got[c].tolist()],
+                                              clause="a type map gives the plainly read column cast with the constructor (dtype, values, missing positions)")
+                        except Exception as e:
+                            run.check(inp, False, expected="cast of the plain read", got=f"raised {type(e).__name__}: {e}", clause="type map == read then cast")
                 else:
                     exp = [{k: v for k, v in item.items() if k in cols} for item in full]
                     obs = [dict(x) for x in got]
@@ -183,7 +203,7 @@ def restriction_driver(name, cls, meth, write, colkw, tykw, tymaps, from_string=
     return _d
 
 
-_DF_TYMAPS = [{}, {"a": "float"}, {"c": "float"}, {"a": "float", "b": "object"}]
+_DF_TYMAPS = [{}, {"a": "float"}, {"c": "float"}, {"a": "float", "b": "object"}, {"b": "str"}, {"a": "str", "c": "float"}, {"d": "str"}]
 _LOD_TYMAPS = [{}, {"a": "float"}, {"a": "str"}, {"c": "str", "a": "float"}]
 restriction_driver("dataiter/data_frame.py::DataFrame.read_csv[restriction]", DataFrame, "read_csv", _w_csv3, "columns", "dtypes", _DF_TYMAPS)
 restriction_driver("dataiter/data_frame.py::DataFrame.read_parquet[restriction]", DataFrame, "read_parquet", _w_parquet3, "columns", "dtypes", _DF_TYMAPS)
@@ -198,8 +218,8 @@ restriction_driver("dataiter/list_of_dicts.py::ListOfDicts.from_json[restriction
 def _w_geojson3(d):
     p = os.path.join(d, "r.geojson")
     doc = {"type": "FeatureCollection", "name": "n", "features": [
-        {"type": "Feature", "properties": {"a": 1, "b": "x", "z": 9}, "geometry": {"type": "Point", "coordinates": [1, 2]}},
-        {"type": "Feature", "properties": {"b": "", "a": 2}, "geometry": None},
+        {"type": "Feature", "properties": {"a": 1, "b": "x", "z": 9, "d": "p"}, "geometry": {"type": "Point", "coordinates": [1, 2]}},
+        {"type": "Feature", "properties": {"b": "", "a": 2, "d": None}, "geometry": None},
         {"type": "Feature", "properties": {"c": 2.0, "a": 3, "b": "z"}, "geometry": {"type": "Point", "coordinates": [3, 4]}}]}
     # heterogeneous property sets: column c first occurs in the LAST feature, the first feature has an unrequested key z
     with open(p, "w") as f:
@@ -457,5 +477,31 @@ def geojson_write_driver(run):
                           clause="write then read: same columns, values, missing positions and metadata")
             except Exception as e:
                 run.check([props, mi, ind], False, expected="written and re-read", got=f"raised {type(e).__name__}: {e}", clause="write answers")
+    finally:
+        shutil.rmtree(d, ignore_errors=True)
+
+
+@driver("dataiter/data_frame.py::DataFrame.read_csv[no header: type map by generated names]")
+def read_csv_no_header(run):
+    run.bound = "one header-less 3-column CSV x type maps over the generated names a, b, c x column subsets"
+    d = tempfile.mkdtemp(prefix="vfrd")
+    try:
+        p = os.path.join(d, "n.csv")
+        with open(p, "w") as f:
+            f.write("1,x,0.5\n2,y,\n3,z,2.0\n")
+        gen = ((tm,) for tm in ({}, {"a": "float"}, {"c": "float", "a": "float"}, {"b": "object"}, {"a": "str"}))
+        for (tm,) in run.inputs(gen):
+            ty = {k: _TY[v] for k, v in tm.items()}
+            try:
+                plain_ = DataFrame.read_csv(p, header=False)
+                got = DataFrame.read_csv(p, header=False, dtypes=dict(ty))
+                ok = got.colnames == plain_.colnames == ["a", "b", "c"]
+                for c in got.colnames:
+                    want = DataFrameColumn(plain_[c].tolist(), ty[c]) if c in ty else plain_[c]
+                    ok = ok and str(got[c].dtype) == str(want.dtype) and got[c].equal(want)
+                obs = _frame_cols(got)
+            except Exception as e:
+                ok, obs = False, f"raised {type(e).__name__}: {e}"
+            run.check([tm], ok, expected="the full read cast column by column", got=obs, clause="header-less read: type map applies to the generated names")
     finally:
         shutil.rmtree(d, ignore_errors=True)
